@@ -53,7 +53,8 @@ def get_non_default_args(func):
 
     nonDefaultArgs = []
     for key in para:
-        if key != "kwargs" and key != "args" and para[key].default is inspect._empty: #no default and not kwargs
+        is_variadic = para[key].kind in (inspect.Parameter.VAR_POSITIONAL, inspect.Parameter.VAR_KEYWORD)
+        if not is_variadic and para[key].default is inspect._empty: #no default and not *args/**kwargs
             nonDefaultArgs.append(key)
     return nonDefaultArgs
 
